@@ -26,9 +26,12 @@ Print Assumptions C18_restart.
 Theorem C18_duplex_in_order : forall g start s1 s2,
   duplex_input g start (s1 ++ s2) = duplex_input g start s1 ++ duplex_input g start s2.
 Proof. exact duplex_input_app. Qed.
-Theorem C18_duplex_send : forall g start f b s, start < sf_id f -> sf_topic f = g_name g ++ suffix_send ->
+Theorem C18_duplex_send : forall g start f b s, start < sf_id f -> sf_ctx f = g_ctx g -> sf_topic f = g_name g ++ suffix_send ->
   duplex_input g start ((f, b) :: s) = b :: duplex_input g start s.
 Proof. exact duplex_send_after_start. Qed.
+Theorem C18_duplex_other_context : forall g start f b s, sf_ctx f <> g_ctx g ->
+  duplex_input g start ((f, b) :: s) = duplex_input g start s.
+Proof. exact duplex_other_context. Qed.
 Theorem C18_duplex_other : forall g start f b s, sf_topic f <> g_name g ++ suffix_send ->
   duplex_input g start ((f, b) :: s) = duplex_input g start s.
 Proof. exact duplex_not_send. Qed.
